@@ -2,14 +2,19 @@ package main
 
 import (
 	"bytes"
+	"context"
 	"encoding/base64"
 	"encoding/hex"
 	"encoding/json"
 	"fmt"
+	apiclient "github.com/enfein/mieru/v3/apis/client"
+	"io"
 	"math/rand"
+	"net"
 	"os"
 	"path/filepath"
 	"strings"
+	"time"
 
 	"github.com/enfein/mieru/v3/pkg/appctl"
 	"github.com/enfein/mieru/v3/pkg/appctl/appctlcommon"
@@ -336,6 +341,38 @@ func c20Case(c *Ctx) *Result {
 				}
 			}
 		}
+		// ---------- client patch that must be rejected: nothing may change ----------
+		if sig == "" {
+			before, _ := appctl.LoadClientConfig()
+			bad := &pb.ClientConfig{}
+			kind := pick(r, "active-profile-missing", "http-port-equals-socks5-port", "rpc-port-equals-socks5-port")
+			switch kind {
+			case "active-profile-missing":
+				bad.ActiveProfile = proto.String("no-such-profile-" + fmt.Sprint(r.Uint32()))
+			case "http-port-equals-socks5-port":
+				bad.HttpProxyPort = proto.Int32(before.GetSocks5Port())
+			default:
+				bad.RpcPort = proto.Int32(before.GetSocks5Port())
+			}
+			pj, _ := mcommon.MarshalJSON(bad)
+			pf := filepath.Join(dir, "badpatch.json")
+			os.WriteFile(pf, pj, 0o644)
+			if err := appctl.ApplyJSONClientConfig(pf); err == nil {
+				if merged, _ := appctl.LoadClientConfig(); merged != nil && appctl.ValidateFullClientConfig(merged) != nil {
+					fail("invalid-patch-accepted|"+kind, "a patch that makes the configuration invalid was applied without an error")
+				}
+				// (a patch may be harmless for this particular configuration)
+				appctl.StoreClientConfig(before)
+			} else {
+				res.Obs["rejected_patches"]++
+				after, lerr := appctl.LoadClientConfig()
+				if lerr != nil || !proto.Equal(after, before) {
+					fail("rejected-patch-changed-stored-config|"+kind, fmt.Sprintf("the patch was refused (%v) but the stored client configuration is no longer what it was (load error: %v)", trunc(err.Error(), 80), lerr))
+				} else if verr := appctl.ValidateFullClientConfig(after); verr != nil {
+					fail("stored-config-invalid-after-rejected-patch|"+kind, verr.Error())
+				}
+			}
+		}
 		// ---------- server: store -> load, no plaintext ----------
 		var stoks []string
 		sc := genServerConfig(r, &stoks)
@@ -455,6 +492,65 @@ func c20Case(c *Ctx) *Result {
 				fail("start-panics", p)
 			}
 			res.Obs["started"]++
+		}
+	}
+	// ---------- names at the length limits: whatever validation lets through must work ----------
+	if sig == "" {
+		cjk := "\u4e2d\u6587\u540d\u5b57\u6d4b\u8bd5" // 6 runes, 18 bytes
+		names := []string{
+			strings.Repeat("a", 64), strings.Repeat("a", 65),
+			strings.Repeat(cjk, 5),                // 30 runes, 90 bytes
+			strings.Repeat(cjk, 3) + "0123456789", // 28 runes, 64 bytes
+			strings.Repeat("\u00e9", 32),          // 32 runes, 64 bytes
+			strings.Repeat("\u00e9", 33),          // 33 runes, 66 bytes
+			strings.Repeat("\u00e9", 64),          // 64 runes, 128 bytes
+		}
+		for _, name := range names {
+			n := simnet.New()
+			sep := n.Endpoint("10.0.0.1")
+			l, err := sep.Listen(context.Background(), "tcp", "10.0.0.1:443")
+			if err != nil {
+				break
+			}
+			go func() {
+				for {
+					cn, err := l.Accept()
+					if err != nil {
+						return
+					}
+					go io.Copy(io.Discard, cn)
+				}
+			}()
+			cep := n.Endpoint("10.0.1.1")
+			tp := pb.TransportProtocol_TCP
+			nw := pb.HandshakeMode_HANDSHAKE_NO_WAIT
+			prof := &pb.ClientProfile{ProfileName: proto.String("default"), User: &pb.User{Name: proto.String(name), Password: proto.String("pw")},
+				Servers:       []*pb.ServerEndpoint{{IpAddress: proto.String("10.0.0.1"), PortBindings: []*pb.PortBinding{{Port: proto.Int32(443), Protocol: tp.Enum()}}}},
+				HandshakeMode: nw.Enum()}
+			cli := apiclient.NewClient()
+			res.Obs["limit_names"]++
+			if err := cli.Store(&apiclient.ClientConfig{Profile: prof, Dialer: cep}); err != nil {
+				res.Obs["limit_names_rejected"]++
+				l.Close()
+				continue
+			}
+			// accepted: it must start, dial and write without a crash (a panic in a
+			// background goroutine ends this process: the driver reports it with
+			// the input logged here)
+			c.Out.Note("c20-limit-name", map[string]interface{}{"name_bytes": len(name), "name": name})
+			if err := cli.Start(); err == nil {
+				ctx, cancel := context.WithTimeout(context.Background(), 3*time.Second)
+				if cn, err := cli.DialContext(ctx, &net.TCPAddr{IP: net.IPv4(198, 51, 100, 7), Port: 80}); err == nil {
+					cn.SetDeadline(time.Now().Add(2 * time.Second))
+					cn.Write([]byte("hello"))
+					time.Sleep(200 * time.Millisecond)
+					cn.Close()
+				}
+				cancel()
+				cli.Stop()
+			}
+			res.Obs["started"]++
+			l.Close()
 		}
 	}
 	// ---------- malformed text: never a panic ----------
